@@ -208,6 +208,9 @@ def _input_dir():
                            ('b.latex', '\\begin{center}z\\end{center}'), ('bad.tex', 'unclosed {group \\emph')]:
             with open(os.path.join(d, name), 'w') as f:
                 f.write(text)
+        with open(os.path.join(d, 'latin1.tex'), 'wb') as f:
+            f.write(b'caf\xe9 \\emph{na\xefve}')          # an input file that is not valid UTF-8
+        os.mkdir(os.path.join(d, 'adir.tex'))
         _INPUT_DIR.update(pid=os.getpid(), dir=d)
     return _INPUT_DIR['dir']
 
@@ -388,7 +391,8 @@ def cases(tier, rng):
     for s in ['\\input{a}', 'x \\input{a.tex} y', '\\include{b}$\\input{c}$', '\\input', '\\input{}', '{\\input{a}\\input{a}}']:
         for o in sweep[::5]:
             yield {'s': s, 'o': o, 'subclass': True}
-    for s in ['Before. \\input{chapter} After.', '\\include{chapter.tex}', '$a$ \\input{nested}', '\\input{b}', '\\input{empty}x', '\\input{bad}', '\\input{missing}', '\\input{../x}']:
+    for s in ['Before. \\input{chapter} After.', '\\include{chapter.tex}', '$a$ \\input{nested}', '\\input{b}', '\\input{empty}x', '\\input{bad}', '\\input{missing}', '\\input{../x}',
+              '\\input{a\x00b}', '\\input{latin1}', '\\include{latin1.tex} x', '\\input{adir}', '\\input{' + 'n' * 300 + '}', '\\input{\ud800}']:
         for how in ('none', 'empty', 'strict', 'tol', 'ctx', 'ctxtol'):
             if how == 'strict' and 'bad' in s:
                 continue        # strict parsing of the input file was asked for: its parse error is the caller's choice
